@@ -135,6 +135,15 @@ impl ExprValue {
 
     /// convert each element to its raw string representation
     pub fn to_string_vec(&self) -> Vec<String> {
+        // (an item is a value to compute with rather than one to display: it keeps the
+        // digits single precision has, 0.0625 rather than 0.062)
+        fn fstr(n: f32) -> String {
+            let s = format!("{n:.6}");
+            match s.trim_end_matches('0').trim_end_matches('.') {
+                "-0" | "" => "0".to_owned(),
+                s => s.to_owned(),
+            }
+        }
         match self {
             Self::Number(n) => vec![fstr(*n)],
             Self::String(s) | Self::Text(s) => vec![s.clone()],
